@@ -256,8 +256,6 @@ def params_tree(est) -> Any:
             out[name] = params_tree(est.__dict__[name])
     if "modules" in getattr(est, "__dict__", {}):
         out["modules"] = [params_tree(m) for m in est.__dict__["modules"]]
-    if "layers" in getattr(est, "__dict__", {}):
-        out["layers"] = [params_tree(m) for m in est.__dict__["layers"]]
     if "fusion_art" in getattr(est, "__dict__", {}):
         out["fusion_art"] = params_tree(est.__dict__["fusion_art"])
     for name in ("td_alpha", "td_lambda", "rho_lower_bound", "offline"):
